@@ -266,6 +266,14 @@ func parseExpr(in []byte) (Q, int, error) {
 		if subQ == nil {
 			return nil, 0, fmt.Errorf("query: '-' operator needs an argument")
 		}
+		switch s := subQ.(type) {
+		case *caseQ:
+			return nil, 0, fmt.Errorf("query: '-' cannot be applied to case:")
+		case *Type:
+			if s.Child == nil {
+				return nil, 0, fmt.Errorf("query: '-' cannot be applied to type:")
+			}
+		}
 		b = b[n:]
 		expr = &Not{subQ}
 
